@@ -9,6 +9,7 @@ what makes an accepting run evidence for the property rather than for the checke
 That `WF` holds after EVERY history and crash is decided by running the checker on the images
 of sampled histories (labelled PARTIAL): the block-level operations are not modelled.
 -/
+import GoNfsd.Lemmas.DirData
 import GoNfsd.Model.Fsck
 import GoNfsd.Lemmas.FsckMeta
 import GoNfsd.Lemmas.Names
@@ -445,5 +446,63 @@ example :
       GoNfsd.Model.BlockMap.lookup r.1.st r.2 (8 + 512 + 512 * 4), r.1.allocs)
       = ([0, 0, 0, 100, 0, 0, 0, 0, 101, 103], 100, 102, 105, 0, 107, []) := by
   decide
+
+/-! ### directories as blocks (models M7e on M7d on M7)
+
+A directory is a file of 128-byte slots.  The slot list the reference model M6 works with is the
+decoding (`dir.decodeDirEnt`) of the bytes of the block-level file; the one WRITE that
+`AddNameDir` / `RemNameDir` / `InitDir` issue is `putSlot` / `set` on it.  With
+`Props/C12.block_level_file_refines_the_content_log` and `pointer_tree_step_is_the_mapping_step`
+this carries the namespace theorems above (stated on slot lists) down to directory BLOCKS. -/
+section dirblocks
+open GoNfsd.Model.FileData GoNfsd.Model.Codec
+
+/-- The entry written at a slot appears at that slot (appended if the slot is the end of the
+    directory), every other slot decodes exactly as before — whichever blocks the slots lie in,
+    mapped or not — and the size stays a whole number of slots: `addName` of the reference model. -/
+theorem directory_slot_write_is_putSlot (f : F) (fresh : Nat → Nat) (slot inum : Nat) (name : List UInt8)
+    (h : Inv f) (hf : FreshOK f fresh) (L : Nat) (hsz : f.size = L * DS) (hslot : slot ≤ L)
+    (hi : inum < 2 ^ 64) (hn : name.length ≤ MAXNAMELEN) :
+    slotsOf (f.write fresh (slot * DS) (encodeDirEnt inum name)) =
+      GoNfsd.Model.Fs.putSlot (slotsOf f) slot { inum := inum, name := name } ∧
+    (f.write fresh (slot * DS) (encodeDirEnt inum name)).size =
+      (GoNfsd.Model.Fs.putSlot (slotsOf f) slot { inum := inum, name := name }).length * DS :=
+  slot_write_is_putSlot f fresh slot inum name h hf L hsz hslot hi hn
+
+/-- `RemNameDir` frees exactly the slot it names: `remNameAt` of the reference model. -/
+theorem directory_slot_clear_is_set (f : F) (fresh : Nat → Nat) (idx : Nat) (h : Inv f)
+    (hf : FreshOK f fresh) (L : Nat) (hsz : f.size = L * DS) (hidx : idx < L) :
+    slotsOf (f.write fresh (idx * DS) (encodeDirEnt 0 [])) = (slotsOf f).set idx GoNfsd.Model.Fs.freeSlot :=
+  slot_clear_is_set f fresh idx h hf L hsz hidx
+
+/-- REFINEMENT for directories: after ANY history of entry writes and entry removals (at slots
+    inside the directory or at its end, with names and numbers that fit) the directory blocks
+    decode to the slot list the reference model has, and the size is that many slots. -/
+theorem directory_blocks_refine_the_slot_list (ops : List DirOp) (ha : DirAllowed F.empty ops) :
+    slotsOf (ops.foldl F.dirApply F.empty) = ops.foldl slotApply [] ∧
+    (ops.foldl F.dirApply F.empty).size = (ops.foldl slotApply []).length * DS := by
+  obtain ⟨_, h2, h3⟩ := dir_history_refines ops F.empty empty_inv ⟨0, by simp [F.empty]⟩ ha
+  have h0 : slotsOf F.empty = [] := by simp [slotsOf, F.empty]
+  rw [h0] at h2 h3
+  exact ⟨h2, h3⟩
+
+/-- Non-vacuity: `InitDir`'s first entry on an empty directory satisfies the hypotheses, and a
+    three-entry history (".", "..", then a name; the name removed again) decodes as expected. -/
+example : DirAllowed F.empty [.put (fun i => 100 + i) 0 1 [46]] := by
+  refine ⟨⟨?_, by simp [F.empty], by decide, by simp [MAXNAMELEN]⟩, trivial⟩
+  intro i _
+  refine ⟨?_, fun j => ?_, fun o => rfl, fun j _ e => ?_⟩
+  · show 100 + i ≠ 0; omega
+  · show (0 : Nat) ≠ 100 + i; omega
+  · have e' : 100 + j = 100 + i := e
+    omega
+example :
+    let ops : List DirOp := [.put (fun i => 100 + i) 0 1 [46], .put (fun i => 100 + i) 1 1 [46, 46],
+      .put (fun i => 100 + i) 2 5 [97], .clear (fun i => 100 + i) 2, .put (fun i => 100 + i) 3 6 [98]]
+    ((slotsOf (ops.foldl F.dirApply F.empty)).map fun s => (s.inum, s.name)) =
+      [(1, [46]), (1, [46, 46]), (0, []), (6, [98])] := by
+  decide +kernel
+
+end dirblocks
 
 end GoNfsd.Props.C04
